@@ -59,7 +59,7 @@ def one_case(d):
                 if expected["ok"] != intended["words"]:
                     st["nontrivial"] = st.get("nontrivial", 0) + 1
                 # the terminal shows `before => after` for every non-empty pair
-                shown = [re.split(r"\s+=>\s+", l.strip(), maxsplit=1) for l in out.split("\n") if "=>" in l]
+                shown = [re.split(r"\s+=>\s*", l.strip(), maxsplit=1) for l in out.split("\n") if "=>" in l]
                 wantshown = [[b, a2] for b, a2 in zip(intended["words"], expected["ok"]) if not (b == "" and a2 == "")]
                 if [x for x in shown if len(x) == 2] != wantshown:
                     F.append((f"c19-run-printed-differs:{label}", f"case={name} printed={shown[:4]} want={wantshown[:4]}"))
